@@ -177,6 +177,10 @@ type state struct {
 	chain  []*snapcache.Breadcrumb
 	conns  map[int]*conn
 	pushed [][]api.Update // update batches pushed on the input channel, not yet consumed (nil entry = a status)
+	// cache-side in-sync oracle
+	pushedSt   []int        // parallel to pushed: the status value of a status item, -1 for an update batch
+	consumed   []api.Update // every update the cache has consumed, in order
+	statusFrom map[int]int  // status value -> number of updates consumed before the latest consumed status item of that value
 	ds     map[int]int    // datastore view (key -> value) of everything the cache has consumed
 	trace  []string
 }
@@ -292,7 +296,7 @@ func exec(h *rt.H, s *state, op string) string {
 			s.cache.VerifStopTickers()
 		}
 		c := snapcache.New(snapcache.Config{MaxBatchSize: b, WakeUpInterval: time.Hour})
-		*s = state{h: h, cache: c, chain: []*snapcache.Breadcrumb{c.CurrentBreadcrumb()}, conns: map[int]*conn{}, ds: map[int]int{}, trace: []string{op}}
+		*s = state{h: h, cache: c, chain: []*snapcache.Breadcrumb{c.CurrentBreadcrumb()}, conns: map[int]*conn{}, ds: map[int]int{}, statusFrom: map[int]int{}, trace: []string{op}}
 		s.chain[0].Timestamp = epoch
 		return "ok"
 	case "upd":
@@ -309,6 +313,7 @@ func exec(h *rt.H, s *state, op string) string {
 		}
 		s.cache.OnUpdates(us)
 		s.pushed = append(s.pushed, us)
+		s.pushedSt = append(s.pushedSt, -1)
 		return "ok"
 	case "status":
 		if s.cache.VerifInputLen() >= s.cache.VerifInputCap() {
@@ -317,6 +322,7 @@ func exec(h *rt.H, s *state, op string) string {
 		st, _ := strconv.Atoi(w[1])
 		s.cache.OnStatusUpdated(api.SyncStatus(st))
 		s.pushed = append(s.pushed, nil)
+		s.pushedSt = append(s.pushedSt, st)
 		return "ok"
 	case "loop":
 		t, _ := strconv.Atoi(w[1])
@@ -328,7 +334,11 @@ func exec(h *rt.H, s *state, op string) string {
 			panic(err)
 		}
 		consumed := before - s.cache.VerifInputLen()
-		for _, us := range s.pushed[:consumed] {
+		for i, us := range s.pushed[:consumed] {
+			if s.pushedSt[i] >= 0 {
+				s.statusFrom[s.pushedSt[i]] = len(s.consumed)
+			}
+			s.consumed = append(s.consumed, us...)
 			for _, u := range us {
 				id, v, has, _, _ := decodeUpdate(u)
 				if has {
@@ -339,7 +349,46 @@ func exec(h *rt.H, s *state, op string) string {
 			}
 		}
 		s.pushed = s.pushed[consumed:]
+		s.pushedSt = s.pushedSt[consumed:]
+		prevStatus := s.chain[len(s.chain)-1].SyncStatus
 		fresh := s.refreshChain()
+		// property oracle (cache side): a crumb that announces a new status must already contain every update the
+		// syncer sent before that status, i.e. its (value) view is the fold of a prefix of the consumed updates
+		// that is at least as long as the prefix preceding the status item.
+		for _, c := range fresh {
+			if c.SyncStatus != prevStatus {
+				if from, ok := s.statusFrom[int(c.SyncStatus)]; ok {
+					cv := map[int]int{}
+					for k, v := range viewOfCrumb(c) {
+						cv[k] = v.val
+					}
+					want := fmt.Sprint(cv)
+					acc := map[int]int{}
+					apply := func(u api.Update) {
+						id, v, has, _, _ := decodeUpdate(u)
+						if has {
+							acc[id] = v
+						} else {
+							delete(acc, id)
+						}
+					}
+					for _, u := range s.consumed[:from] {
+						apply(u)
+					}
+					found := fmt.Sprint(acc) == want
+					for m := from; m < len(s.consumed) && !found; m++ {
+						apply(s.consumed[m])
+						found = fmt.Sprint(acc) == want
+					}
+					if !found {
+						s.fail("status-before-updates", "a breadcrumb announces a new sync status but does not contain every update the syncer sent before that status",
+							map[string]any{"seq": c.SequenceNumber, "status": int(c.SyncStatus), "updatesBeforeStatus": from})
+					}
+					s.h.Count("oracle:status-crumb-checked")
+				}
+			}
+			prevStatus = c.SyncStatus
+		}
 		parts := make([]string, 0, len(fresh))
 		for j, c := range fresh {
 			c.Timestamp = epoch.Add(time.Duration(t+j) * time.Millisecond)
